@@ -859,6 +859,28 @@ func (e *Engine) evalBinop(env *Env, x *Expr) Val {
 		}
 		return mkBool(eq)
 	}
+	if an, ok := a.(*Term); ok && an.S == "NumLit" {
+		if bn, ok := b.(*Term); ok && bn.S == "NumLit" {
+			x, _ := strconv.ParseUint(an.T, 10, 64)
+			y, _ := strconv.ParseUint(bn.T, 10, 64)
+			fold := func(c bool) Val {
+				if c {
+					return tTrue
+				}
+				return tFalse
+			}
+			switch op {
+			case "<", "<u":
+				return fold(x < y)
+			case "<=", "<=u":
+				return fold(x <= y)
+			case ">", ">u":
+				return fold(x > y)
+			case ">=", ">=u":
+				return fold(x >= y)
+			}
+		}
+	}
 	at, bt := e.coerce2(env, a, b)
 	if at.S == SStr && op == "++" {
 		return e.strCat(env.st, at, bt)
@@ -1048,6 +1070,12 @@ func (e *Engine) evalCall(env *Env, x *Expr) Val {
 		}
 		e.needEvents()
 		return mk("Ev", fmt.Sprintf("(mk_ev %s %s)", term(0, SStr).T, attrs))
+	case "ehd":
+		evalArgs()
+		return mk("Ev", "(ehd "+term(0, "EvLog").T+")")
+	case "etl":
+		evalArgs()
+		return mk("EvLog", "(etl "+term(0, "EvLog").T+")")
 	case "econs":
 		evalArgs()
 		e.needEvents()
